@@ -20,6 +20,35 @@ def _san(names):
     return sanitizer
 
 
+def make_call_summary(ctx, fn, sanitizer, depth=2):
+    """Taint of the value of `self._helper(x)` through the resolved private helper: False (clean) when no return of
+    the helper depends on a parameter that receives a tainted argument; None when unknown."""
+    def summary(call, is_tainted):
+        if not (isinstance(call.func, ast.Attribute) and isinstance(call.func.value, ast.Name) and
+                call.func.value.id in ('self', 'cls') and call.func.attr.startswith('_')) or depth <= 0:
+            return None
+        site = next((s for s in ctx.cg.sites(fn) if s.node is call), None)
+        if site is None or site.tag not in ('exact', 'typed') or not site.targets:
+            return None
+        for callee in site.targets:
+            if isinstance(callee.node, ast.Lambda):
+                return None
+            params = callee.params
+            off = 1 if (callee.cls is not None and not callee.is_static and params) else 0
+            src = {params[i + off] for i, a in enumerate(call.args) if i + off < len(params) and is_tainted(a)}
+            src |= {kw.arg for kw in call.keywords if kw.arg in params and is_tainted(kw.value)}
+            IN, tainted = forward_taint(callee, src, sanitizer=sanitizer,
+                                        tuple_summary=make_tuple_summary(ctx, callee, sanitizer, depth - 1),
+                                        call_summary=make_call_summary(ctx, callee, sanitizer, depth - 1))
+            cfg = build_cfg(callee)
+            rets = [n for n in cfg.nodes if n.kind == 'stmt' and isinstance(n.ast, ast.Return) and
+                    n.ast.value is not None]
+            if not rets or any(tainted(n.ast.value, IN[n.id]) for n in rets):
+                return None
+        return False
+    return summary
+
+
 def make_tuple_summary(ctx, fn, sanitizer, depth=2):
     """Element-wise taint of `a, b, c = f(x)` through the resolved callee: element i is tainted iff the i-th
     element of some returned tuple of f depends on a parameter that receives a tainted argument."""
@@ -44,7 +73,8 @@ def make_tuple_summary(ctx, fn, sanitizer, depth=2):
             if isinstance(callee.node, ast.Lambda):
                 return None
             IN, tainted = forward_taint(callee, src, sanitizer=sanitizer,
-                                        tuple_summary=make_tuple_summary(ctx, callee, sanitizer, depth - 1))
+                                        tuple_summary=make_tuple_summary(ctx, callee, sanitizer, depth - 1),
+                                        call_summary=make_call_summary(ctx, callee, sanitizer, depth - 1))
             cfg = build_cfg(callee)
             found = False
             for n in cfg.nodes:
@@ -198,7 +228,8 @@ def eager_returns_stored_vector(ctx, rule='A6'):
     fn = ctx.fn(f'{ENC}:EagerEncoder.get_matrix')
     raw = fn.params[1]
     san = _san({'impute', 'len'})
-    IN, tainted = forward_taint(fn, {raw}, sanitizer=san, tuple_summary=make_tuple_summary(ctx, fn, san))
+    IN, tainted = forward_taint(fn, {raw}, sanitizer=san, tuple_summary=make_tuple_summary(ctx, fn, san),
+                                call_summary=make_call_summary(ctx, fn, san))
     cfg = build_cfg(fn)
     rets = [n for n in cfg.nodes if n.kind == 'stmt' and isinstance(n.ast, ast.Return)]
     if len(rets) < 3:
